@@ -27,11 +27,17 @@ PROPS["C15"] = {
                     "x86-64; frames of code running between two read() calls and below them (allocator, string builder) are not seen",
                     "clang++ -O1 keeps self-recursive tail calls of the parser as calls (measured: 32 bytes per comment for a `return skipSpacesAndComments();` "
                     "refactoring); at -O2 such a call becomes a loop and the growth is not observable",
-                    "default configuration (ARDUINOJSON_DEFAULT_NESTING_LIMIT=10); comments enabled only in the second stack job"],
+                    "default configuration; plus depth jobs built with ARDUINOJSON_DEFAULT_NESTING_LIMIT=3 and =255 (=0 in thorough) that make the calls without a NestingLimit option; comments enabled in the second stack job and in the =255 depth job"],
     "quick": [{"src": "checks/ix_depth.cpp", "mode": "depth", "deps": ["checks/ix_depth.hpp"]},
+              # the default limit is a build option: calls without a NestingLimit option under other values of it
+              {"src": "checks/ix_depth.cpp", "mode": "depth", "deps": ["checks/ix_depth.hpp"], "defs": ["ARDUINOJSON_DEFAULT_NESTING_LIMIT=3"], "args": ["--default-limit-only"]},
+              {"src": "checks/ix_depth.cpp", "mode": "depth", "deps": ["checks/ix_depth.hpp"], "defs": ["ARDUINOJSON_DEFAULT_NESTING_LIMIT=255", "ARDUINOJSON_ENABLE_COMMENTS=1"], "args": ["--default-limit-only"]},
               {"src": "checks/ix_depth.cpp", "mode": "stack", "flavour": "stack", "deps": ["checks/ix_depth.hpp"]},
               {"src": "checks/ix_depth.cpp", "mode": "stack", "flavour": "stack", "defs": ["ARDUINOJSON_ENABLE_COMMENTS=1"], "deps": ["checks/ix_depth.hpp"]}],
     "thorough": [{"src": "checks/ix_depth.cpp", "mode": "depth", "deps": ["checks/ix_depth.hpp"]},
+              {"src": "checks/ix_depth.cpp", "mode": "depth", "deps": ["checks/ix_depth.hpp"], "defs": ["ARDUINOJSON_DEFAULT_NESTING_LIMIT=0"], "args": ["--default-limit-only"]},
+              {"src": "checks/ix_depth.cpp", "mode": "depth", "deps": ["checks/ix_depth.hpp"], "defs": ["ARDUINOJSON_DEFAULT_NESTING_LIMIT=3"], "args": ["--default-limit-only"]},
+              {"src": "checks/ix_depth.cpp", "mode": "depth", "deps": ["checks/ix_depth.hpp"], "defs": ["ARDUINOJSON_DEFAULT_NESTING_LIMIT=255", "ARDUINOJSON_ENABLE_COMMENTS=1"], "args": ["--default-limit-only"]},
                  {"src": "checks/ix_depth.cpp", "mode": "stack", "flavour": "stack", "deps": ["checks/ix_depth.hpp"]},
               {"src": "checks/ix_depth.cpp", "mode": "stack", "flavour": "stack", "defs": ["ARDUINOJSON_ENABLE_COMMENTS=1"], "deps": ["checks/ix_depth.hpp"]}],
     "thorough_deadline": 840,
